@@ -3,6 +3,7 @@ CONSTANTS
   Attr <- Tree
   ModuleOf <- Mods
   ExtraLoads <- Extra
+  SkipForms <- DynSkips
   Templates <- Tpl
   MaxStmts = 6
 
